@@ -300,3 +300,90 @@ theorem wire_dispatch (p q : Packet) (tbl tbl' : TxnTable) (hp : p.wf = true) (h
   simp [dispatch, hd]
 
 end Oryx.RtmpPkt
+
+namespace Oryx.RtmpPkt
+open Oryx Oryx.Res Oryx.Amf0 Oryx.Rtmp
+
+/-! ### the chunk reader's own use of `DecodeMessage` (`onMessageArrivated`) -/
+
+theorem u32_ok {b : Bytes} (h : 4 ≤ b.length) : u32 b = ok (ofBE (b.take 4)) := by
+  unfold u32; rw [if_neg (by omega)]
+
+theorem idx_ok {α} {l : List α} {i : Nat} (h : i < l.length) : idx l i = ok l[i] := by
+  unfold idx; rw [List.getElem?_eq_getElem h]
+
+theorem userControl_unmarshal_ok (data : Bytes) (h3 : 3 ≤ data.length)
+    (hsz : userControlSize (ofBE (data.take 2)) ≤ data.length) :
+    ∃ d x, unmarshal .userControl data = ok (.userControl (ofBE (data.take 2)) d x) := by
+  rw [unmarshal, if_neg (by omega)]
+  simp only []
+  rw [if_neg (by omega)]
+  unfold userControlSize at hsz
+  by_cases hf : ofBE (data.take 2) = Gen.Rtmp.EventTypeFmsEvent0
+  · have hs : ¬ ofBE (data.take 2) = Gen.Rtmp.EventTypeSetBufferLength := by rw [hf]; decide
+    simp only [if_pos hf, if_neg hs, idx_ok (show 2 < data.length by omega), Res.bind_ok, Res.pure_eq]
+    exact ⟨_, _, rfl⟩
+  · rw [if_neg hf] at hsz
+    have h2 : sliceFrom data 2 = ok (data.drop 2) := by unfold sliceFrom; rw [if_pos (by omega)]
+    have hl2 : 4 ≤ (data.drop 2).length := by rw [List.length_drop]; split at hsz <;> omega
+    by_cases hs : ofBE (data.take 2) = Gen.Rtmp.EventTypeSetBufferLength
+    · rw [if_pos hs] at hsz
+      have h6 : sliceFrom data 6 = ok (data.drop 6) := by unfold sliceFrom; rw [if_pos (by omega)]
+      have hl6 : 4 ≤ (data.drop 6).length := by rw [List.length_drop]; omega
+      simp only [if_neg hf, if_pos hs, h2, h6, u32_ok hl2, u32_ok hl6, Res.bind_ok, Res.pure_eq]
+      exact ⟨_, _, rfl⟩
+    · simp only [if_neg hf, if_neg hs, h2, u32_ok hl2, Res.bind_ok, Res.pure_eq]
+      exact ⟨_, _, rfl⟩
+
+/-- What the chunk reader does with a completed message (C01's `Rtmp.onMessageArrived`: decode Set Chunk
+Size / User Control / Window Acknowledgement Size, fail when that fails, apply Set Chunk Size) is exactly
+`DecodeMessage` of this model — the two models agree where they overlap. -/
+theorem onMessageArrived_eq_decode (c : Nat) (m : Msg) (tbl : TxnTable) :
+    onMessageArrived c m =
+      (if m.hdr.ty = 1 ∨ m.hdr.ty = 4 ∨ m.hdr.ty = 5 then
+         match (dispatchSt tbl m).1 with
+         | .ok (.setChunkSize v) => ok v
+         | .ok _ => ok c
+         | .err _ => err .generic
+         | .panic => .panic
+       else ok c) := by
+  unfold onMessageArrived
+  simp only [show Gen.Rtmp.MessageTypeSetChunkSize = 1 from rfl, show Gen.Rtmp.MessageTypeWindowAcknowledgementSize = 5 from rfl,
+    show Gen.Rtmp.MessageTypeUserControl = 4 from rfl]
+  by_cases h1 : m.hdr.ty = 1
+  · simp only [h1, true_or, if_true]
+    by_cases hl : m.payload.length < 4
+    · rw [if_pos hl]
+      by_cases h0 : m.payload.length = 0
+      · simp [dispatchSt, h0]
+      · rw [dispatchSt_control tbl m .setChunkSize h0 (Or.inl ⟨h1, rfl⟩), unmarshal, if_pos hl]
+    · rw [if_neg hl, dispatchSt_control tbl m .setChunkSize (by omega) (Or.inl ⟨h1, rfl⟩), unmarshal, if_neg hl,
+        u32_ok (by omega)]
+      rfl
+  · by_cases h5 : m.hdr.ty = 5
+    · simp only [h5, if_true, or_true, show ¬ (5 = 1) by decide, if_false]
+      by_cases hl : m.payload.length < 4
+      · rw [if_pos hl]
+        by_cases h0 : m.payload.length = 0
+        · simp [dispatchSt, h0]
+        · rw [dispatchSt_control tbl m .winAck h0 (Or.inr (Or.inl ⟨h5, rfl⟩)), unmarshal, if_pos hl]
+      · rw [if_neg hl, dispatchSt_control tbl m .winAck (by omega) (Or.inr (Or.inl ⟨h5, rfl⟩)), unmarshal, if_neg hl,
+          u32_ok (by omega)]
+        rfl
+    · by_cases h4 : m.hdr.ty = 4
+      · simp only [h4, if_true, or_true, true_or, show ¬ (4 = 1) by decide, show ¬ (4 = 5) by decide, if_false]
+        by_cases hl : m.payload.length < 3
+        · rw [if_pos hl]
+          by_cases h0 : m.payload.length = 0
+          · simp [dispatchSt, h0]
+          · rw [dispatchSt_control tbl m .userControl h0 (Or.inr (Or.inr (Or.inr ⟨h4, rfl⟩))), unmarshal, if_pos hl]
+        · rw [if_neg hl, dispatchSt_control tbl m .userControl (by omega) (Or.inr (Or.inr (Or.inr ⟨h4, rfl⟩)))]
+          by_cases hs : m.payload.length < userControlSize (ofBE (m.payload.take 2))
+          · rw [if_pos hs, unmarshal, if_neg hl]
+            simp only []
+            rw [if_pos hs]
+          · obtain ⟨d, x, hu⟩ := userControl_unmarshal_ok m.payload (by omega) (by omega)
+            rw [if_neg hs, hu]
+      · simp [h1, h5, h4]
+
+end Oryx.RtmpPkt
